@@ -23,6 +23,12 @@ async def quick(*a, **kw):
     return None
 
 
+async def fail(*a, **kw):
+    """A worker that raises at once."""
+    _log("fail", a, kw)
+    raise RuntimeError("boom")
+
+
 def plain(*a, **kw):
     """Not a coroutine function."""
     _log("plain", a, kw)
